@@ -74,6 +74,15 @@ Theorem C09_follow_changes_only_target : forall fx modf acts l x t rest p,
 Proof. exact follow_only_target. Qed.
 Print Assumptions C09_follow_changes_only_target.
 
+(* directory arguments: every file the expansion yields is either an argument itself or a listed entry of a
+   (transitively reached) directory - a *.py entry that is neither hidden nor __pycache__ - UNDER THE ENTRY'S
+   OWN NAME: a symlink found while recursing reaches the symlink policy as a symlink (so (e), (f) and
+   C09_policy_protects_links apply to it), never already resolved *)
+Theorem C09_expansion_yields_entries_by_name : forall f args p,
+  In p (fst (expand f args)) -> In (APath p) args \/ listed f p.
+Proof. exact expand_names. Qed.
+Print Assumptions C09_expansion_yields_entries_by_name.
+
 (* errors_do_not_stop.  Full statement (for every fx): every file of the expanded argument list is
    processed, in order; a failing file makes the exit status 1 and is named in the problem list;
    so is every bad file name; EXIT1 makes the status 1.
@@ -162,6 +171,14 @@ Example C09_nonvacuous_chain :   (* 5 -> 4 -> 2 -> 1: follow rewrites file 1 onl
   rfs r 1%N = Some (NFile [97; 33] 1) /\ rfs r 2%N = Some (NLink 1) /\ rfs r 4%N = Some (NLink 2) /\ rfs r 5%N = Some (NLink 4) /\
   rfs r 8%N = Some (NBin 0) /\ rerrors r = [(6%N, ErrBadFilename); (8%N, ErrRead)] /\ rlog r = [(8%N, Error ErrRead); (5%N, Normal)] /\
   resolve max_hops f 5 = Some 1%N /\ resolve max_hops f 6 = None.
+Proof. vm_compute. repeat split. Qed.
+Example C09_nonvacuous_dir :   (* dir 10 = [.h.py -> skipped; a.py = link 11 -> 1 (outside); sub 12 = [b.py 3]; t.txt; ldir 13 -> 12] *)
+  let f := upd (upd (upd (upd ex_fs 10 (Some (NDir [mkEnt true false true 3; mkEnt false false true 11; mkEnt false false false 13;
+                                                   mkEnt false false false 12; mkEnt false false false 2])))
+                11 (Some (NLink 1))) 12 (Some (NDir [mkEnt false false true 3]))) 13 (Some (NLink 12)) in
+  fst (expand f [APath 10]) = [11; 3; 3] /\
+  (let r := process repaired_code ex_modf [SymSkip; Replace] [APath 10] [] f 1 in
+   rfs r 1 = Some (NFile [97] 0) /\ rfs r 11 = Some (NLink 1) /\ rfs r 3 = Some (NFile [98; 33; 33] 2)).
 Proof. vm_compute. repeat split. Qed.
 Example C09_nonvacuous_query :
   let r := process repaired_code ex_modf [Query; Replace] [APath 1; APath 3] [[32; 89]; [110]] ex_fs 1 in
